@@ -361,6 +361,13 @@ func (e *Enc) addFootprint(ce *callEffect, m string, env *SpecEnv) {
 		key := e.elemKey(sl.Elem())
 		ce.foot[key] = append(ce.foot[key], "(sref "+sv.T+")")
 		return
+	case strings.HasPrefix(m, "elemtype "):
+		// every slice/array element of the given type (whole heap key)
+		_, gt, _, _ := e.parseType(strings.TrimSpace(m[9:]), env.pkg)
+		if gt != nil {
+			ce.foot[e.elemKey(gt)] = []string{"*"}
+		}
+		return
 	case strings.HasPrefix(m, "global "):
 		name := strings.TrimSpace(m[7:])
 		for k := range e.keySort {
@@ -390,6 +397,15 @@ func (e *Enc) addFootprint(ce *callEffect, m string, env *SpecEnv) {
 			if strings.HasPrefix(field, "$") {
 				if k := e.ghostKey(tn, field); k != "" {
 					ce.foot[k] = []string{"*"}
+				}
+			}
+			if field == "*" {
+				for _, gf := range e.w.cs.Ghosts {
+					if gf.Struct == typeBaseName(tn) {
+						if k := e.ghostKey(tn, gf.Name); k != "" {
+							ce.foot[k] = []string{"*"}
+						}
+					}
 				}
 			}
 			return
@@ -576,28 +592,32 @@ func (e *Enc) appendBuiltin(fr *Frame, val ssa.Value, cc *ssa.CallCommon, g stri
 	fref, h2 := e.freshRef(h, "app")
 	ncap := e.declare("app_cap", "Int")
 	e.emit(fmt.Sprintf("(assert (>= %s %s))", ncap, newlen))
-	res := e.define("app_r", sliceSort, fmt.Sprintf("(ite %s (mk_slice (sref %s) (soff %s) %s (scap %s)) (ite (= %s 0) %s (mk_slice %s 0 %s %s)))",
-		inplace, s, s, newlen, s, k, s, fref, newlen, ncap))
-	// nil stays nil when nothing is appended: in-place case covers k==0 (newlen = len <= cap)
+	// A freshly allocated backing array is given the same element offset as s:
+	// nobody else can observe the offset inside a fresh array, and it makes the
+	// copied prefix sit at the same absolute positions in both cases.
+	res := e.define("app_r", sliceSort, fmt.Sprintf("(ite %s (mk_slice (sref %s) (soff %s) %s (scap %s)) (mk_slice %s (soff %s) %s %s))",
+		inplace, s, s, newlen, s, fref, s, newlen, ncap))
 	old := e.hget(h2, key)
 	rref := fmt.Sprintf("(sref %s)", res)
-	roff := fmt.Sprintf("(soff %s)", res)
 	row := e.declare("app_row", "(Array Int "+es+")")
-	// row contents: prefix from s (unchanged positions in place), new elements from t, rest as before (in place) / unspecified (fresh)
 	oldRow := fmt.Sprintf("(select %s (sref %s))", old, s)
 	tRow := fmt.Sprintf("(select %s (sref %s))", old, t)
-	e.emit(fmt.Sprintf("(assert (forall ((i!a Int)) (! (=> (and (<= 0 i!a) (< i!a (slen %s))) (= (select %s (+ %s i!a)) (select %s (+ (soff %s) i!a)))) :pattern ((select %s (+ %s i!a))))))",
-		s, row, roff, oldRow, s, row, roff))
-	e.emit(fmt.Sprintf("(assert (forall ((i!a Int)) (! (=> (and (<= 0 i!a) (< i!a %s)) (= (select %s (+ %s (slen %s) i!a)) (select %s (+ (soff %s) i!a)))) :pattern ((select %s (+ %s (slen %s) i!a))))))",
-		k, row, roff, s, tRow, t, row, roff, s))
-	// in place: positions outside [off+len, off+newlen) keep their old contents
-	e.emit(fmt.Sprintf("(assert (=> %s (forall ((j!a Int)) (! (=> (or (< j!a (+ (soff %s) (slen %s))) (>= j!a (+ (soff %s) %s))) (= (select %s j!a) (select %s j!a))) :pattern ((select %s j!a))))))",
-		inplace, s, s, s, newlen, row, oldRow, row))
-	// common special case k == 1: direct equation helps the solver
-	e.emit(fmt.Sprintf("(assert (=> (= %s 1) (= (select %s (+ %s (slen %s))) (select %s (soff %s)))))", k, row, roff, s, tRow, t))
-	nt := e.define("S_"+key, e.keySort[key], fmt.Sprintf("(ite (and (not %s) (= %s 0)) %s (store %s %s %s))", inplace, k, old, old, rref, row))
+	lo := e.define("app_lo", "Int", fmt.Sprintf("(+ (soff %s) (slen %s))", s, s))
+	hi := e.define("app_hi", "Int", fmt.Sprintf("(+ (soff %s) %s)", s, newlen))
+	// prefix
+	e.emit(fmt.Sprintf("(assert (forall ((j!a Int)) (! (=> (and (<= (soff %s) j!a) (< j!a %s)) (= (select %s j!a) (select %s j!a))) :pattern ((select %s j!a)))))",
+		s, lo, row, oldRow, row))
+	// appended elements
+	e.emit(fmt.Sprintf("(assert (forall ((j!a Int)) (! (=> (and (<= %s j!a) (< j!a %s)) (= (select %s j!a) (select %s (+ (- j!a %s) (soff %s))))) :pattern ((select %s j!a)))))",
+		lo, hi, row, tRow, lo, t, row))
+	e.emit(fmt.Sprintf("(assert (=> (= %s 1) (= (select %s %s) (select %s (soff %s)))))", k, row, lo, tRow, t))
+	// in place: every other position keeps its old contents
+	e.emit(fmt.Sprintf("(assert (=> %s (forall ((j!a Int)) (! (=> (or (< j!a %s) (>= j!a %s)) (= (select %s j!a) (select %s j!a))) :pattern ((select %s j!a))))))",
+		inplace, lo, hi, row, oldRow, row))
+	nt := e.define("S_"+key, e.keySort[key], fmt.Sprintf("(ite (= %s 0) %s (store %s %s %s))", k, old, old, rref, row))
 	h2 = e.hset(h2, key, nt)
-	fr.ops[val] = opVal(Val{res, sliceSort})
+	resT := e.define("app_res", sliceSort, fmt.Sprintf("(ite (= %s 0) %s %s)", k, s, res))
+	fr.ops[val] = opVal(Val{resT, sliceSort})
 	return h2
 }
 
@@ -624,10 +644,11 @@ func (e *Enc) copyBuiltin(fr *Frame, val ssa.Value, cc *ssa.CallCommon, g string
 	row := e.declare("copy_row", "(Array Int "+es+")")
 	oldDst := fmt.Sprintf("(select %s (sref %s))", old, dst)
 	oldSrc := fmt.Sprintf("(select %s (sref %s))", old, src)
-	e.emit(fmt.Sprintf("(assert (forall ((i!c Int)) (! (=> (and (<= 0 i!c) (< i!c %s)) (= (select %s (+ (soff %s) i!c)) (select %s (+ (soff %s) i!c)))) :pattern ((select %s (+ (soff %s) i!c))))))",
-		n, row, dst, oldSrc, src, row, dst))
-	e.emit(fmt.Sprintf("(assert (forall ((j!c Int)) (! (=> (or (< j!c (soff %s)) (>= j!c (+ (soff %s) %s))) (= (select %s j!c) (select %s j!c))) :pattern ((select %s j!c)))))",
-		dst, dst, n, row, oldDst, row))
+	hi := e.define("copy_hi", "Int", fmt.Sprintf("(+ (soff %s) %s)", dst, n))
+	e.emit(fmt.Sprintf("(assert (forall ((j!c Int)) (! (=> (and (<= (soff %s) j!c) (< j!c %s)) (= (select %s j!c) (select %s (+ (- j!c (soff %s)) (soff %s))))) :pattern ((select %s j!c)))))",
+		dst, hi, row, oldSrc, dst, src, row))
+	e.emit(fmt.Sprintf("(assert (forall ((j!c Int)) (! (=> (or (< j!c (soff %s)) (>= j!c %s)) (= (select %s j!c) (select %s j!c))) :pattern ((select %s j!c)))))",
+		dst, hi, row, oldDst, row))
 	nt := e.define("S_"+key, e.keySort[key], fmt.Sprintf("(ite (= %s 0) %s (store %s (sref %s) %s))", n, old, old, dst, row))
 	if val != nil {
 		fr.ops[val] = opVal(Val{n, "Int"})
